@@ -8,13 +8,16 @@ atom/functor/listpair/makelist (both directions, same and other engine, and a mu
 object identity of atoms per engine."""
 import random
 from lib import ast_io
-from lib.terms import g_str
+from lib.terms import g_str, g_list
+from lib import terms as TM
 
 ID = 'C16'
-IMPORTS = ['Lang.Front']
+IMPORTS = ['Lang.Ast', 'Lang.Front', 'Lang.Denote']
 THEOREMS = ['C16_quoted_atom_roundtrip', 'C16_quoted_atom_in_context', 'C16_quoted_atom_literal', 'C16_plain_atom_token',
             'C16_numeral_token', 'C16_numeral_leading_zeros', 'C16_numeral_roundtrip', 'C16_variable_token',
-            'C16_list_pattern_folds', 'C16_list_literal', 'C16_anon_fresh', 'C16_anon_name_inj', 'C16_anon_not_source']
+            'C16_list_pattern_folds', 'C16_list_literal', 'C16_anon_fresh', 'C16_anon_name_inj', 'C16_anon_not_source',
+            'C16_literal_denotation', 'C16_makelist_listpair_chain', 'C16_to_python_literal', 'C16_to_python_compiled_literal',
+            'C16_api_term_unifies', 'C16_atom_identity', 'C16_atom_unify_by_name']
 RULE = ('programs of facts fact_i(L, V1..Vn), rules body_i(R, V1..Vn) :- R = L and at_j(A) for random literals L: plain and quoted '
         'atoms (spaces, quotes, line breaks, tabs, non-ASCII incl. astral and combining code points, digits-only, empty, [] ), '
         'integers with leading zeros and bignums, named and anonymous variables, compound terms with plain, quoted and operator '
@@ -33,6 +36,7 @@ TRUSTED_BASE = [
 ASSUMPTIONS = ['quoted atoms contain no backslash (the grammar cannot express one); to_python is specified for proper lists only',
                'the tail of a [..|T] pattern is a variable (grammar)']
 CASE_TIMEOUT = 30
+POSITIONS = ('fact', 'body', 'rbody', 'ite', 'alt', 'meta')
 COQ_CHUNK = 40
 
 # ------------------------------------------------------------------ literals
@@ -184,7 +188,9 @@ def mutate_leaf(rng, t):
     path = rng.choice(paths)
     def rebuild(u, p):
         if not p:
-            if u[0] == 'atom': return ['atom', u[1] + '#'] if rng.random() < 0.7 else ['num', '5']
+            if u[0] == 'atom':
+                if u[1].isdigit() and u[1].isascii(): return ['num', u[1]]        # '123' is not 123
+                return ['atom', u[1] + '#'] if rng.random() < 0.7 else ['num', '5']
             if u[0] == 'num': return ['num', str(int(u[1]) + 1)] if rng.random() < 0.7 else ['atom', u[1]]
             return ['atom', 'not_nil']
         (slot, i), rest = p[0], p[1:]
@@ -212,13 +218,28 @@ def make_case(rng, lits):
         clauses.append(['fact%d' % i, [lit] + vargs, ['true']])
         clauses.append(['body%d' % i, [['var', 'Res']] + vargs, ['call', '=', [['var', 'Res'], lit]]])
         clauses.append(['rbody%d' % i, [['var', 'Res']] + vargs, ['and', ['true'], ['call', '=', [lit, ['var', 'Res']]]]])
+        # the literal inside control constructs and as an argument of a meta-call
+        clauses.append(['ite%d' % i, [['var', 'Res']] + vargs, ['or', ['if', ['call', '=', [['var', 'Res'], lit]], ['true']], ['fail']]])
+        clauses.append(['alt%d' % i, [['var', 'Res']] + vargs, ['or', ['fail'], ['and', ['call', 'yes', []], ['call', '=', [lit, ['var', 'Res']]]]]])
+        clauses.append(['meta%d' % i, [['var', 'Res']] + vargs, ['call', 'call', [['fun', 'eq', [['var', 'Res']]], lit]]])
         for a in atoms_of(lit):
             if a not in atoms: atoms.append(a)
+    clauses.append(['yes', [], ['true']])
+    clauses.append(['eq', [['var', 'A'], ['var', 'B']], ['call', '=', [['var', 'A'], ['var', 'B']]]])
     for j, a in enumerate(atoms):
         clauses.append(['at%d' % j, [['atom', a]], ['true']])
     src = ast_io.program_text(clauses)
     muts = [mutate_leaf(rng, l) for l in lits]
-    return {'src': src, 'lits': lits, 'envs': envs, 'atoms': atoms, 'muts': muts, 'clauses': clauses}
+    for i, m in enumerate(muts):
+        if m is not None:
+            vargs = [['var', v] for v in named_vars(lits[i])]
+            # a term that differs in one constant never unifies with the literal: \+ succeeds exactly once
+            clauses.append(['neg%d' % i, vargs, ['not', ['call', '=', [lits[i], m]]]])
+            clauses.append(['pos%d' % i, vargs, ['call', '=', [lits[i], lits[i]]]])
+    src = ast_io.program_text(clauses)
+    pool = (atoms or ['a']) + ['[]', 'zz', '']
+    calls = [[rng.random() < 0.4, rng.choice(pool)] for _ in range(rng.choice([4, 8, 12, 16]))]
+    return {'src': src, 'lits': lits, 'envs': envs, 'atoms': atoms, 'muts': muts, 'clauses': clauses, 'atom_calls': calls}
 
 def gen(rng, tier):
     n = 150 if tier == 'quick' else 2500
@@ -253,7 +274,29 @@ def builtin_corpus():
     return [make_case(rng, g) for g in groups]
 
 def model_expr(case):
-    return '(run_front %s)' % g_str(case['src'])
+    envs = g_list([g_list(['(%s, %s)' % (g_str(v), ast_io.g_sterm(t)) for v, t in env.items()]) for env in case['envs']])
+    calls = g_list(['(%s, %s)' % ('true' if e else 'false', g_str(n)) for e, n in case['atom_calls']])
+    return '(run_c16 %s %s %s)' % (g_str(case['src']), envs, calls)
+
+_UNSPEC = ['unspecified']
+
+def _mv(v):
+    """a Python value printed by the model (Lang/Denote.pyval_obs) in the encoding of enc()"""
+    k = v[0]
+    if k == 's': return v[1]
+    if k == 'i': return v[1]
+    if k == 'none': return None
+    if k == 'l': return ['l'] + [_mv(x) for x in v[1]]
+    if k == 't': return ['t', v[1], [_mv(x) for x in v[2]]]
+    if k == 'unspecified': return _UNSPEC
+    raise ValueError(v)
+
+def _has_dot(t):
+    k = t[0]
+    if k == 'fun': return t[1] == '.' or any(_has_dot(a) for a in t[2])
+    if k == 'list': return any(_has_dot(a) for a in t[1])
+    if k == 'pair': return _has_dot(t[1]) or _has_dot(t[2])
+    return False
 
 # ------------------------------------------------------------------ implementation
 
@@ -276,11 +319,47 @@ def _build(yp, t, varmap):
         return yp.listpair(_build(yp, t[1], varmap), _build(yp, t[2], varmap))
     raise ValueError(t)
 
+def _build_alt(yp, t, varmap):
+    """the same term through the OTHER public constructors: functor1/2/3 for arities 1-3, lists as listpair chains
+    ending in ATOM_NIL, '.'-chains that end in [] through makelist, atom(name, module)"""
+    k = t[0]
+    if k == 'atom': return yp.ATOM_NIL if t[1] == '[]' else yp.atom(t[1], 'some_module')
+    if k == 'num': return int(t[1])
+    if k == 'var':
+        if t[1] == '_': return yp.variable()
+        if t[1] not in varmap: varmap[t[1]] = yp.variable()
+        return varmap[t[1]]
+    if k == 'fun':
+        args = [_build_alt(yp, a, varmap) for a in t[2]]
+        if t[1] == '.' and len(args) == 2:
+            return yp.functor2('.', args[0], args[1])
+        if len(args) == 1: return yp.functor1(t[1], args[0])
+        if len(args) == 2: return yp.functor2(t[1], args[0], args[1])
+        if len(args) == 3: return yp.functor3(t[1], args[0], args[1], args[2])
+        return yp.functor(t[1], args)
+    if k == 'list':
+        r = yp.ATOM_NIL
+        for a in reversed([_build_alt(yp, a, varmap) for a in t[1]]):
+            r = yp.listpair(a, r)
+        return r
+    if k == 'pair':
+        return yp.functor('.', [_build_alt(yp, t[1], varmap), _build_alt(yp, t[2], varmap)])
+    raise ValueError(t)
+
 def _topy(E, x):
     try:
-        return enc(E.to_python(x))
+        v = enc(E.to_python(x))
     except TypeError:
         return ['raised', 'TypeError']
+    if isinstance(x, E.IUnifiable):
+        # the method and the module function are the same conversion
+        try:
+            w = enc(x.to_python())
+        except TypeError:
+            w = ['raised', 'TypeError']
+        if w != v:
+            return ['method-differs', v, w]
+    return v
 
 def _succeeds(E, a, b, after=None):
     n = 0
@@ -310,7 +389,7 @@ def impl(case):
         vs = named_vars(lit)
         env = case['envs'][i]
         o = {}
-        for pred in ('fact', 'body', 'rbody'):
+        for pred in POSITIONS:
             # variables unbound
             X = yp.variable(); Vs = [yp.variable() for _ in vs]
             o[pred + '_free'] = [_topy(E, X) for _ in yp.query('%s%d' % (pred, i), [X] + Vs)]
@@ -339,7 +418,22 @@ def impl(case):
                 for it in its:
                     try: next(it)
                     except StopIteration: ok = False
+                # to_python applied directly to the API-built term (not through a query variable) sees the bindings of
+                # its variables at every depth, list tails included; same for the term built with the other constructors
+                vm2 = {}
+                T2 = _build_alt(eng, lit, vm2)
+                for v in vs:
+                    vm2.setdefault(v, eng.variable())
+                its2 = [iter(E.unify(vm2[v], vm[v])) for v in vs]
+                for it in its2:
+                    try: next(it)
+                    except StopIteration: ok = False
+                direct = [_topy(E, T), _topy(E, T2)] if ok else None
                 r3 = _succeeds(E, X, T, lambda: _topy(E, X)) if ok else None
+                if r3 is not None:
+                    r3 = r3 + [direct]
+                for it in reversed(its2):
+                    it.close()
                 for it in reversed(its):
                     it.close()
                 res.append([r1, r2, r3])
@@ -347,6 +441,15 @@ def impl(case):
             # and as a query argument
             T = _build(eng, lit, {})
             o['query_' + tag] = sum(1 for _ in yp.query('fact%d' % i, [T] + [yp.variable() for _ in vs]))
+            # the same term through the other constructors (functor1/2/3, listpair chains, ATOM_NIL, atom(name, module))
+            X = yp.variable(); Vs = [yp.variable() for _ in vs]
+            res = []
+            for _ in yp.query('fact%d' % i, [X] + Vs):
+                T = _build_alt(eng, lit, {})
+                res.append([_succeeds(E, X, T, lambda: [_topy(E, T), _topy(E, X)]),
+                            _succeeds(E, _build_alt(eng, lit, {}), _build(yp, lit, {}))[0],
+                            sum(1 for _ in yp.query('=', [_build_alt(eng, lit, {}), X]))])
+            o['alt_' + tag] = res
         mut = case['muts'][i]
         if mut is not None:
             X = yp.variable(); Vs = [yp.variable() for _ in vs]
@@ -355,6 +458,23 @@ def impl(case):
                 res.append([_succeeds(E, X, _build(yp, mut, {}))[0], _succeeds(E, _build(yp2, mut, {}), X)[0]])
             o['mut'] = res
             o['query_mut'] = sum(1 for _ in yp.query('fact%d' % i, [_build(yp, mut, {})] + [yp.variable() for _ in vs]))
+        if mut is not None:
+            o['neg'] = [sum(1 for _ in yp.query('neg%d' % i, [yp.variable() for _ in vs])),
+                        sum(1 for _ in yp.query('pos%d' % i, [yp.variable() for _ in vs]))]
+        # a chain of variables: V1 -> V2 -> the literal's value; to_python follows it, and gives None again afterwards
+        X = yp.variable(); V1 = yp.variable(); V2 = yp.variable()
+        chain = []
+        for _ in yp.query('fact%d' % i, [X] + [yp.variable() for _ in vs]):
+            for _ in E.unify(V1, V2):
+                mid = _topy(E, V1)
+                for _ in E.unify(V2, X):
+                    chain.append([mid, _topy(E, V1), _topy(E, V2), _topy(E, X)])
+        o['chain'] = chain + [[_topy(E, V1), _topy(E, V2)]]
+        # the run-time term itself, read structurally (atoms / ints / compound names and arities / '.' cells / variables by
+        # identity, numbered by first occurrence): what the compiled fact builds, and what the API constructors build
+        X = yp.variable()
+        o['struct'] = [TM.term_obs(TM.ImplTerms([yp]).read(X)) for _ in yp.query('fact%d' % i, [X] + [yp.variable() for _ in vs])]
+        o['api_struct'] = [TM.term_obs(TM.ImplTerms([yp]).read(_build(yp, lit, {}))), TM.term_obs(TM.ImplTerms([yp2]).read(_build_alt(yp2, lit, {})))]
         # nothing stays bound
         X = yp.variable()
         for _ in yp.query('fact%d' % i, [X] + [yp.variable() for _ in vs]):
@@ -370,9 +490,28 @@ def impl(case):
         r['cross_query'] = sum(1 for _ in yp.query('at%d' % j, [yp2.atom(a)]))
         r['other_name'] = [_succeeds(E, yp.atom(a), yp2.atom(a + '~'))[0], sum(1 for _ in yp.query('at%d' % j, [yp.atom(a + '~')]))]
         r['name'] = yp.atom(a).name() == a
+        r['module_ignored'] = yp.atom(a, 'm') is yp.atom(a) and yp.atom(a, module='other') is yp.atom(a)
+        r['in_functor'] = [_succeeds(E, yp.functor1('w', yp.atom(a)), yp2.functor('w', [yp2.atom(a)]))[0],
+                           _succeeds(E, yp.functor1('w', yp.atom(a)), yp2.functor('w', [yp2.atom(a + '~')]))[0],
+                           _succeeds(E, yp.atom(a), yp.functor(a, []))[0], _succeeds(E, yp.functor(a, []), yp2.atom(a))[0]]
         r['to_python'] = enc(E.to_python(yp.atom(a)))
         out['atoms'].append(r)
+    # the atom tables of two fresh engines under a sequence of atom(name) calls: which calls return the same object
+    e1, e2 = E.YP(), E.YP()
+    objs = [(e2 if e else e1).atom(n) for e, n in case['atom_calls']]
+    out['atom_calls'] = [next(j for j, p in enumerate(objs) if p is q) for q in objs]
+    # the empty list: one object per engine, however it is obtained; raw Python values convert to themselves
+    X = yp.variable()
+    out['nil'] = {'makelist': yp.makelist([]) is yp.ATOM_NIL, 'atom': yp.atom('[]') is yp.ATOM_NIL,
+                  'topy': [enc(E.to_python(yp.ATOM_NIL)), enc(E.to_python(yp.makelist([]))), enc(yp.atom('[]').to_python())],
+                  'other': yp.ATOM_NIL is not yp2.ATOM_NIL, 'cross': _succeeds(E, yp.ATOM_NIL, yp2.makelist([]))[0],
+                  'raw': [enc(E.to_python(v)) for v in (0, 7, -3, 10 ** 30, 'text', '', None)],
+                  'raw_unify': [_succeeds(E, 7, 7)[0], _succeeds(E, 7, 8)[0], _succeeds(E, 7, yp.atom('7'))[0], _succeeds(E, yp.atom('7'), 7)[0],
+                                _succeeds(E, X, 7, lambda: enc(E.to_python(X)))]}
     return out
+
+NIL_WANT = {'makelist': True, 'atom': True, 'topy': [['l'], ['l'], ['l']], 'other': True, 'cross': 1,
+            'raw': [0, 7, -3, 10 ** 30, 'text', '', None], 'raw_unify': [1, 0, 0, 0, [1, 7]]}
 
 def allow_harness_raise(case, io):
     return io[1] == 'RecursionError'
@@ -389,7 +528,7 @@ def _expected_from(lits, case, io):
         # to_python is specified for proper lists only: a list whose tail stays unbound has no expected value
         free_spec = not has_raise(free)
         bound_spec = not has_raise(bound)
-        for pred in ('fact', 'body', 'rbody'):
+        for pred in POSITIONS:
             if len(o[pred + '_free']) != 1 or len(o[pred + '_bound']) != 1:
                 return 'literal %d in %s position: %d / %d answers instead of one' % (i, pred, len(o[pred + '_free']), len(o[pred + '_bound']))
             if free_spec and o[pred + '_free'] != [free]:
@@ -409,11 +548,25 @@ def _expected_from(lits, case, io):
                     return 'literal %d: after unification with the API term to_python gives %r, expected %r' % (i, r[1][1], free)
             if r3 is None or r3[0] != 1 or (bound_spec and r3[1] != bound):
                 return 'literal %d: API term with bound variables (%s engine): %r, expected one answer %r' % (i, tag, r3, bound)
+            if bound_spec and r3[2] != [bound, bound]:
+                return 'literal %d: to_python applied to the API-built term whose variables are bound (%s engine) gives %r, expected %r' % (i, tag, r3[2], bound)
             if o['query_' + tag] != 1:
                 return 'literal %d: querying the fact with the API-built term (%s engine) gives %d answers' % (i, tag, o['query_' + tag])
+            alt = o['alt_' + tag]
+            if len(alt) != 1 or alt[0][0][0] != 1 or alt[0][1] != 1 or alt[0][2] != 1:
+                return 'literal %d: the term built with functor1/2/3, listpair chains and ATOM_NIL (%s engine) does not unify exactly once with the literal: %r' % (i, tag, alt)
+            if free_spec and alt[0][0][1] != [free, free]:
+                return 'literal %d: term built with functor1/2/3 / listpair chains (%s engine): to_python gives %r, expected %r' % (i, tag, alt[0][0][1], free)
         if 'mut' in o:
             if o['mut'] != [[0, 0]] or o['query_mut'] != 0:
                 return 'literal %d: a term that differs in one constant unifies with the compiled literal (%r, %r)' % (i, o['mut'], o['query_mut'])
+            if o['neg'] != [1, 1]:
+                return 'literal %d: `\\+ L = M` / `L = L` for a term M that differs in one constant have %r answers, expected [1, 1]' % (i, o['neg'])
+        ch = o['chain']
+        if len(ch) != 2 or ch[-1] != [None, None]:
+            return 'literal %d: variable chain observations %r' % (i, ch)
+        if free_spec and ch[0] != [None, free, free, free]:
+            return 'literal %d: to_python through a chain of variables gives %r, expected %r' % (i, ch[0], [None, free, free, free])
         if not o['unbound_after']:
             return 'literal %d: query variable still bound after the query' % i
     return None
@@ -426,9 +579,12 @@ def oracle(case, io):
     r = _expected_from(case['lits'], case, io)
     if r:
         return r
+    if io['nil'] != NIL_WANT:
+        return 'empty list / raw Python values: %r, expected %r' % (io['nil'], NIL_WANT)
     for j, (a, o) in enumerate(zip(case['atoms'], io['atoms'])):
         want = {'same_object': True, 'distinct_engines': True, 'compiled_is_table': [True], 'compiled_is_table2': [True],
                 'cross_unify': [1, 1], 'cross_query': 1, 'other_name': [0, 0], 'name': True,
+                'module_ignored': True, 'in_functor': [1, 0, 0, 0],
                 'to_python': ['l'] if a == '[]' else a}
         if o != want:
             return 'atom %r: identity / cross-engine observations %r, expected %r' % (a, o, want)
@@ -457,6 +613,9 @@ def _unnumber(t):
 def compare(case, io, mo):
     if not isinstance(io, dict):
         return None
+    mo, mlits, matoms = mo
+    if io.get('atom_calls') is not None and io['atom_calls'] != matoms:
+        return 'atom identity: the calls %r return the objects (numbered by creating call) %r, the atom table model gives %r' % (case['atom_calls'], io['atom_calls'], matoms)
     if mo[0] != 'ok':
         return 'the model front end refuses a program of literals (%s)' % mo[0]
     prog = mo[1]
@@ -472,7 +631,34 @@ def compare(case, io, mo):
     lits = _model_lits(case, prog)
     if lits is None:
         return 'model program lacks a fact clause'
-    return _expected_from([_unnumber(l) for l in lits], case, io)
+    r = _expected_from([_unnumber(l) for l in lits], case, io)
+    if r:
+        return r
+    # the values that the proved specification lit_py (Lang/Denote.v, theorem C16_to_python_literal) prescribes, computed
+    # inside Coq from the source text, against what to_python returns for the compiled program -- in every position
+    if mlits[0] != 'ok' or len(mlits[1]) != len(case['lits']):
+        return 'tie: the model did not produce the specified Python values of the literals'
+    for i, (lit, mv) in enumerate(zip(case['lits'], mlits[1])):
+        o = io['lits'][i]
+        free, bound = _mv(mv[0]), _mv(mv[1])
+        # the two independent computations of the expected value (this harness, the Coq specification) agree
+        pf, pb = py_of(lit, {}), py_of(lit, case['envs'][i])
+        if not _has_dot(lit):
+            if (free == _UNSPEC) != has_raise(pf) or (bound == _UNSPEC) != has_raise(pb):
+                return 'tie: literal %d: the harness and the Coq specification disagree on whether the value is specified' % i
+            if (free != _UNSPEC and free != pf) or (bound != _UNSPEC and bound != pb):
+                return 'tie: literal %d: the Coq specification lit_py gives %r / %r, the harness expects %r / %r' % (i, free, bound, pf, pb)
+        # the term the literal denotes (sden, theorem C16_literal_denotation) against the run-time term read structurally
+        if o['struct'] != [mv[2]]:
+            return 'literal %d: the compiled fact builds the term %r, the literal denotes %r' % (i, o['struct'], mv[2])
+        if o['api_struct'] != [mv[2], mv[2]]:
+            return 'literal %d: the API constructors build %r, the literal denotes %r' % (i, o['api_struct'], mv[2])
+        for pred in POSITIONS:
+            if free != _UNSPEC and o[pred + '_free'] != [free]:
+                return 'literal %d in %s position: to_python gives %r, the specification (lit_py) prescribes %r' % (i, pred, o[pred + '_free'], free)
+            if bound != _UNSPEC and o[pred + '_bound'] != [bound]:
+                return 'literal %d in %s position, variables bound: to_python gives %r, the specification (lit_py) prescribes %r' % (i, pred, o[pred + '_bound'], bound)
+    return None
 
 def _rename_body(b, counter):
     k = b[0]
